@@ -471,6 +471,14 @@ class BodyAn:
                     if s.kind == 'assign' and s.place.is_local() and s.place.local in carriers and s.rv.kind == 'use' and s.rv.ops[0].kind != 'const' \
                             and not s.rv.ops[0].place.proj and s.rv.ops[0].place.local not in carriers and s.rv.ops[0].place.local > self.b.arg_count:
                         carriers.add(s.rv.ops[0].place.local); grew = True
+                    # the result of an await whose helper was inlined: `_p = Poll::Ready(_y)` at each return of the helper, then
+                    # `_r = move (_p as Ready).0` - `_y` carries the value
+                    if s.kind == 'assign' and s.place.is_local() and s.place.local in carriers and s.rv.kind == 'use' and s.rv.ops[0].kind != 'const' \
+                            and tuple(s.rv.ops[0].place.proj) == ('@Ready', '.0'):
+                        for d in self.defs(s.rv.ops[0].place.local):
+                            if d[0] == 'stmt' and d[3].rv.kind == 'agg' and d[3].rv.j.get('adt') == 'std::task::Poll' and d[3].rv.j.get('variant') == 'Ready' and d[3].rv.ops and \
+                                    d[3].rv.ops[0].kind != 'const' and not d[3].rv.ops[0].place.proj and d[3].rv.ops[0].place.local not in carriers:
+                                carriers.add(d[3].rv.ops[0].place.local); grew = True
         for blk in self.b.blocks:
             if blk.cleanup:
                 continue
@@ -648,6 +656,10 @@ def sources(an, op, extra_through=(), limit=400, deep=False):
             if nm is not None:
                 fl = [x for x in rest if x.startswith('.')]
                 out.add(('upvar', nm + ''.join(fl)))
+                # fields of ADTs read through the captured variable (`pool.hooks.pre_recycle` with `pool: &PoolInner` captured)
+                for fo, fn_ in p.fields():
+                    if fo:
+                        out.add(('field', '%s.%s' % (fo, fn_)))
                 continue
         flds = [(o_, f) for o_, f in p.fields() if o_]
         # field-sensitive step: `_x.1` where `_x = (a, b)` / `_x = S { f: a, g: b }` follows only that operand
